@@ -3,6 +3,7 @@ package main
 // Calls: builtins, contracts, inlining, unknown callees, defer, go.
 
 import (
+	"strconv"
 	"os"
 	"fmt"
 	"go/token"
@@ -357,6 +358,28 @@ func (x *Exec) addMod(env *SpecEnv, m *ModSet, e Expr) {
 		case "object":
 			// every field of the object
 			t := a.T.G
+			if iv, isI := a.V.(VIface); isI {
+				// an interface value: the object it points to, when its dynamic type is known here (the value was
+				// built from a typed pointer in this function); otherwise anything may change
+				n, err := strconv.Atoi(iv.Tag.S)
+				if err != nil || n < 1 || n > len(x.tagTypes) {
+					m.all = true
+					return
+				}
+				pt, ok := x.tagTypes[n-1].Underlying().(*types.Pointer)
+				if !ok {
+					m.all = true
+					return
+				}
+				if _, isStruct := pt.Elem().Underlying().(*types.Struct); !isStruct {
+					k := "B|" + typeName(pt.Elem())
+					m.refs[k] = append(m.refs[k], iv.Box)
+					return
+				}
+				k := "F|" + typeName(pt.Elem())
+				m.refs[k] = append(m.refs[k], iv.Box)
+				return
+			}
 			if p, ok := t.Underlying().(*types.Pointer); ok {
 				t = p.Elem()
 			}
